@@ -233,7 +233,7 @@ impl Request {
     ) -> Result<Option<()>, crate::Response> {
         use crate::Response;
 
-        match stream.read(&mut *self.__buf__).await {
+        let read_len = match stream.read(&mut *self.__buf__).await {
             Ok (0) => return Ok(None),
             Err(e) => return match e.kind() {
                 std::io::ErrorKind::ConnectionReset => Ok(None),
@@ -242,15 +242,18 @@ impl Request {
                     Response::InternalServerError()
                 })(e))
             },
-            _ => ()
-        }
+            Ok (n) => n
+        };
 
         let mut r = Reader::new(unsafe {
             // pass detouched bytes
             // to resolve immutable/mutable borrowing
             // 
             // SAFETY: `self.__buf__` itself is immutable
-            Slice::from_bytes(&*self.__buf__).as_bytes()
+            //
+            // only the bytes that have been read: what follows the head is then exactly
+            // the part of the payload that has already arrived ( a payload byte may be 0 )
+            Slice::from_bytes(&self.__buf__[..read_len]).as_bytes()
         });
 
         match Method::from_bytes(r.read_while(|b| b != &b' ')) {
@@ -308,8 +311,8 @@ impl Request {
     ) -> CowSlice {
         let remaining_buf_len = remaining_buf.len();
 
-        if remaining_buf_len == 0 || *unsafe {remaining_buf.get_unchecked(0)} == 0 {
-            #[cfg(feature="DEBUG")] println!("\n[read_payload] case: remaining_buf.is_empty() || remaining_buf[0] == 0\n");
+        if remaining_buf_len == 0 {
+            #[cfg(feature="DEBUG")] println!("\n[read_payload] case: remaining_buf.is_empty()\n");
 
             let mut bytes = vec![0; size].into_boxed_slice();
             stream.read_exact(&mut bytes).await.unwrap();
